@@ -4,6 +4,24 @@ import json, os, subprocess, sys
 VERIF = os.path.dirname(os.path.dirname(os.path.abspath(__file__)))
 
 CHECKS = {
+ "C01": dict(cat="exploration", tech="runtime monitor: generated programs/histories on the real engine (ASan+UBSan), values compared with a from-scratch engine and a reference evaluator",
+             text="Every provideValue and every successful build result of thousands of generated histories (mutations, builds of any key, restarts on a SQLite DB, deferred completion orders) is compared online with the from-scratch value; held on the executions counted in the evidence.",
+             note="Generated tasks are deterministic by construction; programs are DAGs of up to 10 (quick) / 24 (thorough) keys; the oracle of record (fresh engine) is cross-checked against a pure evaluator after every build.", ref="4/C01"),
+ "C02": dict(cat="exploration", tech="runtime monitor: shadow epochs kept by the observer justify every createTask and every reported RunReason",
+             text="Online monitor M-justify: at most one createTask per key per build, and each must have a true cause in a shadow record the observer builds only from API-boundary events; reasons reported to the delegate are checked against the same shadow.",
+             note="Sound by construction (never predicts the run set, only asks for a cause); under-building is C01's job. Shadow epochs are liberal after interrupted executions.", ref="4/C02"),
+ "C03": dict(cat="exploration", tech="differential runtime monitor (one engine vs restart per build) + independent DB reader + version/lock scenarios",
+             text="Same history in one engine and with an engine+BuildDB restart before every build must give identical per-build traces; a fresh BuildDB reader is compared with the observer's shadow after every build (value, signature, epochs order, dependency order and flags) over hostile key/value bytes; 288 version scenarios; staged lock contests.",
+             note="Restarts are in-process (new BuildEngine and new BuildDB on the same file); sqlite3 itself is trusted.", ref="4/C03"),
+ "C05": dict(cat="exploration", tech="runtime monitor with cancellation injected at engine hook/callback steps (ASan) and from a foreign thread (TSan)",
+             text="cancelBuild() is issued from inside step s of build b for sampled (quick) or all (thorough) steps, then the history continues on the same engine after reset and on a new engine over the same DB with all monitors on; threaded variant under TSan.",
+             note="Steps = callbacks + three guarded hook notifications; instants inside an engine phase only via threads.", ref="4/C05"),
+ "C06": dict(cat="exploration", tech="schedule enumeration at engine idle points (hooks) + ThreadSanitizer stress",
+             text="Completion orders are enumerated (odometer over every scheduling choice, capped) per program/history and each must reproduce the synchronous run's values, executed sets and protocol; stalls are detected logically at the BeforeWait hook; racing workers under TSan.",
+             note="Cap 120/2000 schedules per program; TSan sees only intercepted synchronisation.", ref="4/C06"),
+ "C07": dict(cat="exploration", tech="runtime monitor: ground truth from least-fixpoint evaluator, reported cycle validated edge by edge; enumerated small digraphs",
+             text="Builds of keys whose evaluation requires a cycle must fail with one cycle report whose every edge is a real wait-for relation observed by the monitor; acyclic builds must neither report nor stall; random cyclic programs x histories x 3 schedules plus all digraphs on 3 keys ({absent,static,dynamic}) and 4 keys (static) in thorough.",
+             note="Single-use edges excluded (the engine deliberately forgets them); ForceBuild cycle breaking opted in for 1/4 of cases.", ref="4/C07"),
  "C13": dict(cat="exploration", tech="runtime oracle over real file-system observations (ASan/UBSan build) + valgrind memcheck subset",
              text="Generated (kind, size, mtime) x transition cases on a real ext4 directory, observed through the three FileSystem modes; oracle computed from raw stat/lstat and byte comparison; held on the cases listed in the evidence, nothing more.",
              note="Trusts the kernel's stat(); explicit utimensat mtimes; directories are only compared empty.", ref="4/C13"),
